@@ -26,10 +26,12 @@ from vcore import Failure
 PROP = "C03"
 RULE = (
     "bounded-exhaustive layouts (common chain, referrer chain, target chain of groups/repeats; depth <= 3 quick / 4 "
-    "thorough) x 3 name policies (neutral, string-prefix related, length aligned); every form carries referrers of "
+    "thorough) x 4 name policies (neutral, string-prefix related, length aligned, container names reused by unreferenced "
+    "elements elsewhere); every form carries referrers of "
     "kind question/group/repeat with every reference-bearing cell kind, each naming targets of kind "
     "question/group/repeat incl. all ancestors of the referrer and itself; plus random deeper trees with mixed "
-    "expressions (several refs, indexed-repeat(), instance() predicates, last-saved) and unknown/ambiguous names; "
+    "expressions (several refs, indexed-repeat(), instance() predicates incl. nested ones, select_one_external filters, "
+    "last-saved), re-used names, and unknown/ambiguous names; "
     "distinct by canonical hash of the form; non-trivial = at least one reference checked"
 )
 
@@ -711,9 +713,9 @@ def explore(ctx, factor, bs):
             form = layout_form(common, rchain, tchain, policy, target_first=(n % 2 == 0))
             ctx.count(f"policy:{policy}")
             ctx.count(f"depth:{len(common) + max(len(rchain), len(tchain))}")
-            form_case(ctx, form, direct=ctx.pick(25, 100) * factor)
+            form_case(ctx, form, direct=ctx.pick(20, 100) * factor)
     # random deeper trees, mixed expressions
-    nrand = ctx.pick(350, 6000) * factor
+    nrand = ctx.pick(300, 6000) * factor
     for i in range(nrand):
         rows, els = random_form(ctx.rng, ctx.rng.choice([3, 5, ctx.pick(6, 8)]), ctx.rng.choice([6, 12, 25]))
         if not els:
